@@ -3571,7 +3571,9 @@ class SFTPClientFile:
             offset = 0
             size = 0
 
-        return _SFTPFileReader(self.read_len, self._max_requests,
+        return _SFTPFileReader(self.read_len or
+                               self._handler.limits.max_read_len,
+                               self._max_requests,
                                self._handler, self._handle, offset,
                                size).iter()
 
